@@ -3,7 +3,7 @@ from props import _generic as g
 
 
 def run(ctx):
-    fns = g.py_targets("C01")
+    fns = [t for t in g.py_targets("C01") if "#" not in t and not t.startswith("lemma:")]
     res = ctx.pyvc(fns, mode="faulty")
     from lib import replay
     replay.replay_python(ctx, res)
